@@ -109,6 +109,14 @@ Proof.
     unfold ctx_active in *; cbn in *; rewrite Ep in *; cbn in *; lia.
 Qed.
 
+Lemma hwait_step_wg s j i s' : wg_ok s -> hwait_step s j i = Some s' -> wg_ok s'.
+Proof.
+  intros (Hx & Hw) H. destruct (hwait_step_shape _ _ _ _ H) as (h & En & Ep & ->).
+  unfold wg_ok; cbn; rewrite Hx, Hw.
+  pose proof (cnt_upd ctx_active _ _ _ (set_kpc h (K1w i)) En) as U1.
+  unfold ctx_active in *; cbn in *; rewrite Ep in *; cbn in *; lia.
+Qed.
+
 Lemma reader_step_wg s b s' fx :
   calls_ok s -> bound_ok s -> wg_ok s -> reader_step fixed s b = Some (s', fx) -> wg_ok s'.
 Proof.
@@ -188,6 +196,7 @@ Proof.
   - unfold noeff in H. destruct (caller_step s i veto wr) eqn:E; inversion H; subst. eapply caller_step_wg; eauto.
   - unfold noeff in H. destruct (reply_step s i) eqn:E; inversion H; subst. eapply reply_step_wg; eauto.
   - unfold noeff in H. destruct (handler_step s j veto wr) eqn:E; inversion H; subst. eapply handler_step_wg; eauto.
+  - unfold noeff in H. destruct (hwait_step s j i) eqn:E; inversion H; subst. eapply hwait_step_wg; eauto.
 Qed.
 
 
@@ -203,7 +212,7 @@ Definition early_done (h : hctx) : Prop := k_cl h = false -> k_pc h = KDone.
 Definition hres_ok (stt : status) (h : hctx) : Prop :=
   k_kind h = KCall -> k_cl h = false ->
   match k_pc h with
-  | K0 | K1 | K2 | K2w => k_res h = WrNone
+  | K0 | K1 | K1w _ | K2 | K2w => k_res h = WrNone
   | K4 | KDone => k_res h = WrWritten \/ k_res h = WrFailedOther \/ passive stt = true
   end.
 
@@ -301,13 +310,27 @@ Proof.
         destruct (rd s) eqn:Erd; try (rewrite He2 in P by discriminate; discriminate).
         pose proof (Forall_nth _ _ _ _ (G3 eq_refl) En). congruence.
     - inversion H; subst. unfold put_ctx. (eexists; split; [reflexivity|]); cbn; repeat split; auto.
-      unfold hres_ok in *; cbn. rewrite Ep in Hh. auto. }
+      unfold hres_ok in *; cbn. rewrite Ep in Hh. auto.
+    - destruct (nth_error (calls s) i) as [c|]; [destruct (c_dones c =? 0); [discriminate|]|];
+        inversion H; subst; (eexists; split; [reflexivity|]); cbn; repeat split; auto;
+        unfold hres_ok in *; cbn; rewrite Ep in Hh; auto. }
   destruct Hshape as (h' & Eh & Hk & Hcl & Hres).
   unfold g_inv, past_ctx_wait. rewrite E1, E4, E5, E6, Esock, Eh. repeat split; auto; try tauto.
   - intros P. apply Forall_upd; auto. unfold early_done. intros X. rewrite Hcl in X.
     pose proof (Forall_nth _ _ _ _ (G1 P) En X). congruence.
   - intros P. apply Forall_upd; auto. rewrite Hk. apply (Forall_nth _ _ _ _ (G3 P) En).
   - apply Forall_upd; auto.
+Qed.
+
+Lemma hwait_step_g s j i s' : g_inv s -> hwait_step s j i = Some s' -> g_inv s'.
+Proof.
+  intros (G1 & G2 & G3 & G4 & G5) H. destruct (hwait_step_shape _ _ _ _ H) as (h & En & Ep & ->).
+  pose proof (Forall_nth _ _ _ _ G5 En) as Hh.
+  unfold g_inv, past_ctx_wait; cbn. repeat split; auto; try tauto.
+  - intros P. apply Forall_upd; auto. unfold early_done; cbn. intros X.
+    pose proof (Forall_nth _ _ _ _ (G1 P) En X). congruence.
+  - intros P. apply Forall_upd; auto. cbn. apply (Forall_nth _ _ _ _ (G3 P) En).
+  - apply Forall_upd; auto. unfold hres_ok in *; cbn. rewrite Ep in Hh. auto.
 Qed.
 
 Lemma cnt_zero_done l : cnt ctx_active l = 0 -> Forall early_done l.
@@ -475,6 +498,8 @@ Proof.
       destruct (c_h c); try discriminate; inversion E; reflexivity.
   - unfold noeff in H. destruct (handler_step s j veto wr) eqn:E; inversion H; subst.
     eapply handler_step_g; eauto.
+  - unfold noeff in H. destruct (hwait_step s j i) eqn:E; inversion H; subst.
+    eapply hwait_step_g; eauto.
 Qed.
 
 
